@@ -33,6 +33,9 @@ pub fn histories(thorough: bool) -> Vec<(String, Vec<Step>, WlConfig, Option<u32
         ("H3_merge_gc".to_string(), vec![Add(1), Commit, Add(2), Commit, Merge, Gc, Add(3), Commit], c1.clone(), None),
         ("H4_rollback_restart".to_string(), vec![Add(1), Commit, Add(2), Rollback, Add(3), Commit, DropWriter, NewWriter, Add(4), Commit], c1.clone(), None),
     ];
+    // the interrupted commit writes <segment>.<opstamp>.del; after recovery a writer that issues the same
+    // operations draws the same opstamps (rollback / new writer restart the stamper at the commit opstamp)
+    v.push(("H9_delete_file_name_reuse".to_string(), vec![Add(1), Add(2), Commit, Rollback, DelId(1), Commit, Add(3), DelId(2), Commit], c1.clone(), None));
     if thorough {
         v.push(("H5_emptied_segment".to_string(), vec![Add(1), Commit, Add(2), Commit, DelId(1), Commit, Merge, Add(3), Commit], c1.clone(), None));
         v.push(("H6_flush_cut_uncommitted".to_string(), vec![Add(1), Add(2), Add(3), Commit, Add(4), Add(5), Rollback, Add(6), Commit, Merge], c1.clone(), Some(1)));
